@@ -3,7 +3,7 @@
    U = unbounded (every rank, axis length, item shape, mask, derivative set);
    B = bounded-exhaustive inside Coq, bound in the statement. *)
 From Coq Require Import List ZArith Bool.
-From PM Require Import Base Mask C15Model C15Lemmas.
+From PM Require Import Base Mask C15Model C15Lemmas ShpModel ShpLemmas.
 Import ListNotations.
 
 (* U: every leading-axis operation (reshape flatten swap_axes roll_axis move_axis broadcast_to)
@@ -246,6 +246,33 @@ Example C15_ex_run :
   end = ([0; 0; 7; 8; 3; 4; 9; 10; 5; 6; 11; 12]%Z, [true; false; false; false; false; false]).
 Proof. vm_compute. reflexivity. Qed.
 
+(* ---- the axis plans the regenerated obligations (coq/obl/Shp_C15.v) speak of ---- *)
+(* U: the permutations of ShpModel are the ones by which C15Model's np_swapaxes / np_rollaxis / np_moveaxis transpose *)
+Theorem C15_plan_perm_is_model_swap : forall a b s,
+  np_swapaxes a b s = option_map (fun P => np_transpose P s) (swap_perm a b (length s)).
+Proof. exact np_swapaxes_perm. Qed.
+Theorem C15_plan_perm_is_model_roll : forall a b s,
+  np_rollaxis a b s = option_map (fun P => np_transpose P s) (roll_perm a b (length s)).
+Proof. exact np_rollaxis_perm. Qed.
+Theorem C15_plan_perm_is_model_move : forall a b s,
+  np_moveaxis a b s = option_map (fun P => np_transpose P s) (move_perm a b (length s)).
+Proof. exact np_moveaxis_perm. Qed.
+(* U: an in-range swap / roll of leading axes, applied to an array with k further (item) axes, permutes the leading
+   axes the same way and leaves the item axes where they are *)
+Theorem C15_axis_frame : forall o n k P,
+  match o with NMove _ _ => False | _ => True end ->
+  nop_inrange o n = true -> nop_perm o n = Some P -> nop_perm o (n + k) = Some (P ++ seq n k).
+Proof. exact nop_frame. Qed.
+(* B: the same for np.moveaxis, leading rank <= 4, up to 2 item axes, all duplicate-free axis lists *)
+Theorem C15_move_frame_B : forallb (fun n => forallb (move_frame_ok n) [0; 1; 2]) [0; 1; 2; 3; 4] = true.
+Proof. exact move_frame_B. Qed.
+(* U: NumPy's normalize_axis_index is "add the rank when negative, then range-check" (the form of the code's prologues) *)
+Theorem C15_norm_axis_as_coded : forall n a,
+  norm_axis n a =
+  let a' := (if Z.ltb a 0 then a + Z.of_nat n else a)%Z in
+  if (Z.ltb a' 0 || Z.geb a' (Z.of_nat n))%bool then None else Some (Z.to_nat a').
+Proof. exact norm_axis_norm. Qed.
+
 Print Assumptions C15_lead_one_map.
 Print Assumptions C15_lead_relabel.
 Print Assumptions C15_numer_one_map.
@@ -277,3 +304,9 @@ Print Assumptions C15_stack_elements.
 Print Assumptions C15_broadcast_elements.
 Print Assumptions C15_from_scalars_elements.
 Print Assumptions C15_as_diagonal_elements.
+Print Assumptions C15_plan_perm_is_model_swap.
+Print Assumptions C15_plan_perm_is_model_roll.
+Print Assumptions C15_plan_perm_is_model_move.
+Print Assumptions C15_axis_frame.
+Print Assumptions C15_move_frame_B.
+Print Assumptions C15_norm_axis_as_coded.
